@@ -41,6 +41,69 @@ def check(ctx: Ctx) -> None:
     from .c20 import r13_bodies_are_bytes
     r13_bodies_are_bytes(ctx, "C16.R8")
     no_deferred_storage_effects(ctx)
+    fsync_descriptors_are_real(ctx)
+
+
+def _open_flag_names(ctx: Ctx, f: FunctionInfo, e: Optional[ast.AST], at: int, depth: int = 0) -> Optional[Set[str]]:
+    """The os.O_* names OR-ed into an os.open flags expression (through locals, parameters bound at the call sites of a helper
+    analysed in place, module constants and `getattr(os, "O_X", 0)`); None when a part is not understood."""
+    from .common import resolve_value
+    if e is None or depth > 6:
+        return None
+    if isinstance(e, ast.Constant) and e.value == 0:
+        return set()
+    if isinstance(e, ast.Attribute) and isinstance(e.value, ast.Name) and e.value.id == "os" and e.attr.startswith("O_"):
+        return {e.attr}
+    if isinstance(e, ast.Call) and isinstance(e.func, ast.Name) and e.func.id == "getattr" and len(e.args) >= 2 \
+            and isinstance(e.args[0], ast.Name) and e.args[0].id == "os" and isinstance(e.args[1], ast.Constant) and str(e.args[1].value).startswith("O_"):
+        return {str(e.args[1].value)}
+    if isinstance(e, ast.BinOp) and isinstance(e.op, ast.BitOr):
+        a, b = _open_flag_names(ctx, f, e.left, at, depth + 1), _open_flag_names(ctx, f, e.right, at, depth + 1)
+        return None if a is None or b is None else a | b
+    if isinstance(e, ast.Name):
+        g = ctx.cfg(f)
+        defs = ctx.rd(f).reaching(at, e.id)
+        if not defs and e.id in f.module.consts:
+            return _open_flag_names(ctx, f, f.module.consts[e.id], at, depth + 1)
+        out: Set[str] = set()
+        for src, sat in resolve_value(ctx, f, e, at):
+            if src is None or (isinstance(src, ast.Name) and src.id == e.id):
+                return None
+            r_ = _open_flag_names(ctx, f, src, sat, depth + 1)
+            if r_ is None:
+                return None
+            out |= r_
+        return out
+    return None
+
+
+def fsync_descriptors_are_real(ctx: Ctx, rid: str = "C16.R10") -> None:
+    ctx.rule(rid, "every fsync of the publishers works on a descriptor that CAN be synced: the os.open feeding it carries no O_PATH "
+             "(fsync on such a descriptor fails with EBADF, and the directory sync is wrapped in a handler that tolerates OSError - "
+             "the rename is then never persisted, silently)", 2)
+    n = 0
+    for q in ("storage_backend.LocalStorageBackend.write_file", "data_operations.DataFileWriter.close"):
+        f = ctx.fn(q)
+        g = ctx.cfg(f)
+        sl = ctx.slicer(f)
+        for fs in _fsyncs(ctx, f):
+            arg = fs.ast.args[0] if isinstance(fs.ast, ast.Call) and fs.ast.args else None
+            opens = [c for c in sl.origins(arg, fs.id)["calls"] if isinstance(c, ast.Call) and (dotted(c.func) or "") == "os.open"]
+            for o in opens:
+                host = next((x for x in g.nodes if x.ast is not None and x.kind in ("stmt", "call") and any(y is o for y in ast.walk(x.ast))), None)
+                fl = o.args[1] if len(o.args) > 1 else kwarg(o, "flags")
+                names = _open_flag_names(ctx, f, fl, host.id if host is not None else fs.id)
+                n += 1
+                if names is None:
+                    ctx.ob(rid, f, "fsync descriptor opened without O_PATH", fs, True, f"flags `{norm_text(fl) if fl is not None else None}` not "
+                           "evaluable (not judged)", nontrivial=False, text=norm_text(o)[:50])
+                    continue
+                bad = names & {"O_PATH", "O_WRONLY", "O_APPEND", "O_TRUNC", "O_CREAT", "O_EXCL"}
+                ctx.ob(rid, f, "fsync descriptor opened without O_PATH", fs, not bad,
+                       f"os.open flags {sorted(names)}" + (f": {sorted(bad)} make the fsync fail (EBADF / EISDIR) or alter the file" if bad else ""),
+                       text=norm_text(o)[:50])
+    if n == 0:
+        raise AnalysisError("no fsync fed by os.open found in the publishers")
 
 
 STORAGE_MUTATIONS = {"write_file", "write_json", "write_file_cas", "delete_file"}
@@ -179,9 +242,18 @@ def r1(ctx: Ctx) -> None:
             ctx.ob("C16.R1", f, "parquet writer closed before the fsync", wc[0] if wc else None, ok,
                    "ParquetWriter.close() flushes the footer; fsync comes after it")
         else:
-            wr = ctx.calls(f, prim="os.write")
-            ok = bool(wr) and all(any(w.id in dom[fs.id] for w in wr) for fs in _fsyncs(ctx, f) if any(fs.id in dom[r.id] for r in reps))
-            ctx.ob("C16.R1", f, "content written before the fsync", wr[0] if wr else None, ok, "os.write dominates os.fsync")
+            from .common import temp_fd_writes
+            tw = temp_fd_writes(ctx, f)
+            wr = [w for w, _fd, _fl in tw]
+            rel_fs = [fs for fs in _fsyncs(ctx, f) if any(fs.id in dom[r.id] for r in reps)]
+            ok = bool(wr) and all(any(w.id in dom[fs.id] for w in wr) for fs in rel_fs)
+            # a buffered file object (os.fdopen) holds the data in user space: between its write and the fsync there is a flush()
+            unflushed = [w for w, _fd, fl in tw if fl is not None
+                         and not all(any(w.id in dom[x.id] and x.id in dom[fs.id] for x in fl) for fs in rel_fs)]
+            ctx.ob("C16.R1", f, "content written before the fsync", wr[0] if wr else None, ok and not unflushed,
+                   "os.write dominates os.fsync" if not unflushed else
+                   "the content is written through a buffered file object and no flush() lies between the write and the fsync: the "
+                   "fsync covers an empty (or partial) file, the rename then publishes bytes that are only in user space")
 
 
 def r1b(ctx: Ctx) -> None:
@@ -228,7 +300,8 @@ def r5(ctx: Ctx) -> None:
         f = ctx.fn(q)
         g = ctx.cfg(f)
         sl = ctx.slicer(f)
-        steps = ctx.calls(f, prim="os.write") + ctx.calls(f, prim="os.replace")
+        from .common import temp_fd_writes
+        steps = [w for w, _fd, _fl in temp_fd_writes(ctx, f)] + ctx.calls(f, prim="os.replace")
         for fs in _fsyncs(ctx, f):
             arg = fs.ast.args[0] if isinstance(fs.ast, ast.Call) and fs.ast.args else None
             org = sl.origins(arg, fs.id)
